@@ -6,10 +6,7 @@ PY = '/venv/bin/python'
 def sh(cmd, cwd, timeout=900):
     p = subprocess.run(cmd, cwd=cwd, shell=True, capture_output=True, text=True, timeout=timeout)
     return p.returncode, (p.stdout + p.stderr)
-for pid in sys.argv[1:]:
-    wt, out = f'/tmp/wt-{pid}', f'/tmp/seed-out/{pid}'
-    for n in (1, 2):
-        patch, demo = f'{out}/patch{n}.diff', f'{out}/demo{n}.py'
+XX
         if not (os.path.exists(patch) and os.path.exists(demo)):
             print(pid, n, 'missing'); continue
         sh('git checkout -- . && git clean -fdq', wt)
